@@ -21,9 +21,12 @@ LEVEL_NOTE = ("Model fidelity is checked, not proved. Layered correspondence: th
               "the evaluation frequencies, pump walk-off angle, k_eff, apodisation weights at the nodes; for `jsa` also the value of "
               "jsa_raw; for `counts_corr` the group indices). The singles phase-matching function (2-D integral) is a parameter of the "
               "theorems and is exercised only by the predicate search. Non-vanishing of A1..A4/denominators is a hypothesis.")
-OPS = {"swap", "pm_inverse", "jsa", "pm_integrand", "pm_coinc", "pm_coinc_gl", "norms", "counts_corr"}
+OPS = {"swap", "pm_inverse", "jsa", "pm_integrand", "pm_coinc", "pm_coinc_gl", "norms", "counts_corr", "counts"}
 TOL = {"pm_integrand": ("crel", 1e-11), "pm_coinc": ("csum", 1e-10), "pm_coinc_gl": ("csum", 1e-10), "jsa": ("rel", 1e-11), "norms": ("rel", 1e-11),
-       "counts_corr": ("rel", 1e-12)}
+       "counts_corr": ("rel", 1e-12),
+       # rate = correction · Σ spectrum · dωs·dωi with the signed steps of the rectangle; the spectra are inputs re-evaluated by the
+       # harness (the singles spectra are rayon 2-D sums whose association is not fixed): 1e-6, the statement's own tolerance
+       "counts": ("rel", 1e-6)}
 DEFAULT_TOL = ("exact",)
 RULE = ("family pm/k: random general setups (11 crystals × 5 PM types, non-collinear signal up to 3° external with arbitrary azimuth, "
         "optimum or arbitrary idler, unequal waists 15–400 µm, elliptical pump, waist positions, poled/unpoled with every apodisation "
@@ -34,7 +37,12 @@ RULE = ("family pm/k: random general setups (11 crystals × 5 PM types, non-coll
         "equal external angles, equal waists, exactly degenerate frequencies, equal / zero / mid-crystal waist positions, grating L/k; "
         "half re-phase-matched by the single-parameter optimum calls), every 12th is a written-down config (round numbers, explicit "
         "symmetric arms, SPDC::from_json); on these also the exact-centre and equal-frequency pairs and the pm_integrand K op for the "
-        "setup and its twin")
+        "setup and its twin; a quarter of the c06 setups have elliptic collection modes (BeamWaist{x,y}, x != y: one beam, both, or the "
+        "same ellipse turned by 90 degrees), with the pm_integrand K op for setup and twin; the rates / singles grid is given as "
+        "FrequencySpace::new, Steps2D -> From, with_resolution, WavelengthSpace or SumDiffFrequencySpace, each axis written low-to-high or "
+        "high-to-low independently (4 orientations), square and non-square shapes, rates through counts_* or SPDC::efficiencies, the "
+        "singles clause in both directions (idler of S vs signal of the twin, signal of S vs idler of the twin), and the K op `counts` "
+        "(rate = correction x sum of the spectrum over the frequency rectangle x signed cell area) for the setup and its twin")
 RESIDUAL = ("floating-point rounding (measured: |jsa_S − jsa_swap| ≤ ~1e-10·|jsa|); non-vanishing of A1..A4, denom1, denom2 is a "
             "hypothesis of the theorems and checked by evaluation only; the singles integrand is not modelled")
 TRUSTED_EXTRA = ["tools/props/_pmtol.py: complex-aware comparison (|Δ| relative to the modulus / to the absolute quadrature sum)"]
